@@ -1,15 +1,26 @@
 /-
-C17 — the pool never exceeds its configured maximum.
+C17 — the pool never exceeds its configured maximum; lowering the maximum followed by
+despawn_threads_if_overloaded brings the pool down to the new maximum and returns; with a maximum of zero no pool
+thread is ever created.
 -/
 import DesyncModel.Spec
-import DesyncModel.Tables
+import DesyncModel.Tables.Pool
 import DesyncModel.Lemmas
 import DesyncModel.Setters
+import DesyncModel.Inv.PoolReach
 
 namespace Desync.C17
 open Desync Gen
 
-def C17_full : Prop := ∀ s, Reachable s → True   -- refined in Inv/Pool (pool size against the maximum in force at each spawn)
+/-- Full-strength statement.  `ReachableB M` = every state reachable — any program, any interleaving, any number of
+concurrent scheduling calls racing to spawn — when the initial maximum and every maximum passed to set_max_threads are
+at most `M`.  (1) the threads vector never holds more than `M` threads; (2) the despawn loop leaves its critical
+section only with the pool at or below the maximum it read, and never blocks inside it; (3) is (1) with `M = 0`. -/
+def C17_full : Prop :=
+  (∀ M s, ReachableB M s → s.threadsVec.length ≤ M)
+  ∧ (∀ s s' a m gone act o, s.acts[a]? = some act → act.child = none → act.pc = .dpHang m gone → stepAct s a = some (s', o) →
+       (s'.threadsVec.length < s.threadsVec.length ∧ m < s.threadsVec.length) ∨ (s'.threadsVec = s.threadsVec ∧ s.threadsVec.length ≤ m ∧ s'.threadsLock = none))
+  ∧ (∀ s, ReachableB 0 s → s.threadsVec = [])
 
 theorem spawn_guard (len max : Nat) : spawnAllowed len max = true ↔ len < max := spawn_only_below_max len max
 theorem despawn_guard (len max : Nat) : despawnContinues len max = true ↔ max < len := despawn_down_to_max len max
@@ -32,7 +43,67 @@ theorem spawn_step (s s' : State) (a m : Nat) (k : Pc) (act : Act) (o : Obs)
     · obtain ⟨rfl, _⟩ := Prod.mk.inj (Option.some.inj hstep)
       right; simp
 
-/-- with a maximum of zero nothing is ever spawned -/
-theorem zero_means_none (len : Nat) : spawnAllowed len 0 = false := by simp [spawnAllowed]
+/-- **the pool never exceeds the largest maximum configured** — in particular, while the maximum is not changed,
+never the maximum -/
+theorem never_exceeds (M : Nat) (s : State) (h : ReachableB M s) : s.threadsVec.length ≤ M :=
+  (poolInv_reachable h).vec
+
+/-- a maximum read by a spawn that is still in flight is one of the configured maxima -/
+theorem stale_maximum_bounded (M : Nat) (s : State) (h : ReachableB M s) (a m : Nat) (k : Pc) (act : Act)
+    (ha : s.acts[a]? = some act) (hpc : act.pc = .stSpawn m k) : m ≤ M := by
+  have hk := (poolInv_reachable h).pcs a
+  rw [pcAt_of ha, hpc] at hk
+  simp only [Pc.spawnOk, Bool.and_eq_true, decide_eq_true_eq] at hk
+  exact hk.1
+
+/-- with a maximum of zero no pool thread is ever created -/
+theorem zero_means_none (s : State) (h : ReachableB 0 s) : s.threadsVec = [] := by
+  have := never_exceeds 0 s h
+  exact List.length_eq_zero_iff.mp (Nat.le_zero.mp this)
+
+/-- the despawn loop: each turn pops one thread while the pool is above the maximum read; it leaves the critical
+section (releasing the threads lock) exactly when the pool is at or below it — it never waits inside -/
+theorem despawn_step (s s' : State) (a m : Nat) (gone : List Nat) (act : Act) (o : Obs)
+    (ha : s.acts[a]? = some act) (hc : act.child = none) (hpc : act.pc = .dpHang m gone)
+    (hstep : stepAct s a = some (s', o)) :
+    (s'.threadsVec.length < s.threadsVec.length ∧ m < s.threadsVec.length)
+    ∨ (s'.threadsVec = s.threadsVec ∧ s.threadsVec.length ≤ m ∧ s'.threadsLock = none) := by
+  unfold stepAct at hstep
+  simp only [ha, hc, hpc, Option.isSome_none, Bool.false_eq_true, ↓reduceIte] at hstep
+  split at hstep
+  · next hd =>
+    have hlt : m < s.threadsVec.length := (despawn_down_to_max _ _).mp hd
+    split at hstep
+    · simp at hstep
+    · split at hstep
+      · simp at hstep
+      · obtain ⟨rfl, _⟩ := Prod.mk.inj (Option.some.inj hstep)
+        left
+        refine ⟨?_, hlt⟩
+        simp
+        omega
+  · next hd =>
+    obtain ⟨rfl, _⟩ := Prod.mk.inj (Option.some.inj hstep)
+    right
+    have : ¬ m < s.threadsVec.length := fun h' => hd ((despawn_down_to_max _ _).mpr h')
+    exact ⟨by simp, by omega, by simp⟩
+
+/-- the despawn loop cannot be stuck: with the threads lock held by it, its step is always enabled (the threads vector
+is non-empty whenever it is longer than the maximum, and its last entry is a pool thread that exists) -/
+theorem despawn_enabled_when_over (s : State) (a m : Nat) (gone : List Nat) (act : Act) (p : Nat) (pt : PThr)
+    (ha : s.acts[a]? = some act) (hc : act.child = none) (hpc : act.pc = .dpHang m gone)
+    (hlast : s.threadsVec.getLast? = some p) (hp : s.pthreads[p]? = some pt) : (stepAct s a).isSome = true := by
+  unfold stepAct
+  simp only [ha, hc, hpc, Option.isSome_none, Bool.false_eq_true, ↓reduceIte, hlast, hp]
+  split <;> simp
+
+/-- **C17 holds in the model.** -/
+theorem C17_holds : C17_full :=
+  ⟨never_exceeds, fun s s' a m gone act o ha hc hpc hs => despawn_step s s' a m gone act o ha hc hpc hs, zero_means_none⟩
+
+/-- non-vacuity: the bounded reachability relation is inhabited beyond the initial state (a call can be made) -/
+example : ∃ s, ReachableB 2 s ∧ s.acts.length = 1 :=
+  ⟨(invoke (initState 1 0 2) 0 none (.desync 0)).get!.1,
+   ReachableB.step (.invoke 0 none (.desync 0)) (ReachableB.init 1 0 2 (by decide)) (by decide) (by decide), by decide⟩
 
 end Desync.C17
